@@ -4,6 +4,6 @@ set -e
 cd "$(dirname "$0")"
 export PATH=/opt/veriftools/go1.26.8/bin:$PATH GOFLAGS=-mod=mod GOPROXY=off GOSUMDB=off GOTOOLCHAIN=local GOWORK=off
 mkdir -p bin evidence
-if [ ! -x bin/gabilint ] || [ -n "$(find checker -newer bin/gabilint \( -name '*.go' -o -name go.mod \) -print -quit)" ]; then
+if [ ! -x bin/gabilint ] || [ -n "$(find checker -newer bin/gabilint \( -name '*.go' -o -name go.mod -o -name '*.txt' \) -print -quit)" ]; then
   (cd checker && go build -o ../bin/gabilint .)
 fi
